@@ -9,6 +9,7 @@ import (
 	"fmt"
 	"os"
 	"path/filepath"
+	"regexp"
 	"sort"
 	"strings"
 	"time"
@@ -28,6 +29,9 @@ type output struct {
 	SolverDecided  int64                         `json:"solver_decided_sides"`
 	UnsatPruned    int64                         `json:"unsat_pruned_sides"`
 	UnknownKept    int64                         `json:"unknown_kept_sides"`
+	CrossChecked   int64                         `json:"unsat_cross_checked"`
+	CrossDisagree  int64                         `json:"unsat_cross_disagreements"`
+	PathsRechecked int64                         `json:"paths_final_pc_rechecked_sat"`
 	FreshRetries   int64                         `json:"fresh_solver_retries"`
 	FreshDecided   int64                         `json:"fresh_solver_decided"`
 	AssertsChecked int64                         `json:"asserts_symbolic"`
@@ -66,6 +70,7 @@ func main() {
 	deadline := flag.Int("deadline-s", 0, "wall clock limit for the exploration (0 = none)")
 	maxViol := flag.Int("max-violations", 3, "stored per assertion id")
 	dumpDir := flag.String("dump-unknown", "", "directory for transcripts of queries answered unknown")
+	verifyUnsat := flag.Int("verify-unsat-every", 0, "cross-check every k-th unsat-pruned side with z3 5.1.0 and cvc5")
 	prefixStr := flag.String("prefix", "", "comma-separated decision prefix to start from")
 	single := flag.Bool("single", false, "follow a single path (debugging)")
 	trace := flag.Bool("trace", false, "print function entries (debugging)")
@@ -94,6 +99,12 @@ func main() {
 	}
 	stubNames := map[string]string{}
 	var inits []string
+	type fileDirs struct {
+		stubs map[string]string
+		inits []string
+		uses  []string
+	}
+	perFile := map[string]*fileDirs{}
 	for _, h := range strings.Split(*harness, ",") {
 		if h == "" {
 			continue
@@ -111,10 +122,11 @@ func main() {
 		}
 		overlay[interp.OverlayPath(*repo, dir, filepath.Base(h))] = src
 		s, in := interp.Directives(src, hp)
-		for k, v := range s {
-			stubNames[k] = v
+		fd := &fileDirs{stubs: s, inits: in}
+		for _, mm := range useRe.FindAllSubmatch(src, -1) {
+			fd.uses = append(fd.uses, string(mm[1]))
 		}
-		inits = append(inits, in...)
+		perFile[filepath.Base(h)] = fd
 	}
 	ld, err := interp.Load(*repo, []string{pkgPath}, overlay)
 	if err != nil {
@@ -124,6 +136,28 @@ func main() {
 	if err != nil {
 		fatal(err)
 	}
+	// directives are scoped: those of the file that defines the entry, plus files it names with //verif:use
+	entryFile := filepath.Base(ld.Prog.Fset.Position(fn.Pos()).Filename)
+	seenFiles := map[string]bool{}
+	var collect func(f string)
+	collect = func(f string) {
+		if seenFiles[f] {
+			return
+		}
+		seenFiles[f] = true
+		fd := perFile[f]
+		if fd == nil {
+			fatal(fmt.Errorf("//verif:use names %s which is not among the harness files", f))
+		}
+		for k, v := range fd.stubs {
+			stubNames[k] = v
+		}
+		inits = append(inits, fd.inits...)
+		for _, u := range fd.uses {
+			collect(u)
+		}
+	}
+	collect(entryFile)
 	stubs, err := ld.ResolveStubs(stubNames)
 	if err != nil {
 		fatal(err)
@@ -155,6 +189,7 @@ func main() {
 		cfg.Prefix = append(cfg.Prefix, v)
 	}
 	cfg.Single = *single
+	cfg.VerifyUnsatEvery = *verifyUnsat
 	cfg.Trace = *trace
 	if *deadline > 0 {
 		cfg.Deadline = time.Now().Add(time.Duration(*deadline) * time.Second)
@@ -163,7 +198,7 @@ func main() {
 	o := output{
 		Entry: pkgPath + "." + *entry, Solver: spec.Name, Workers: *workers, LoadS: loadS, WallS: res.Wall.Seconds(),
 		Completed: res.Completed, Pruned: res.Pruned, Forks: res.Forks, SolverDecided: res.SolverDecided,
-		UnsatPruned: res.UnsatPruned, UnknownKept: res.UnknownKept, FreshRetries: res.FreshRetries, FreshDecided: res.FreshDecided, AssertsChecked: res.AssertsChecked,
+		UnsatPruned: res.UnsatPruned, UnknownKept: res.UnknownKept, CrossChecked: res.CrossChecked, CrossDisagree: res.CrossDisagree, PathsRechecked: res.PathsRechecked, FreshRetries: res.FreshRetries, FreshDecided: res.FreshDecided, AssertsChecked: res.AssertsChecked,
 		AssertsConc: res.AssertsConc, Queries: res.Queries, SolverS: float64(res.SolverNanos) / 1e9,
 		Steps: res.Steps, MapRangesFixed: res.MapRangesFixed, MapRangesPerm: res.MapRangesPerm,
 		Violations: res.Violations, ViolationCount: res.ViolationCount, Inconclusive: res.Inconclusive,
@@ -196,6 +231,8 @@ func main() {
 		os.Exit(1)
 	}
 }
+
+var useRe = regexp.MustCompile(`(?m)^//verif:use\s+(\S+)\s*$`)
 
 func fatal(err error) {
 	fmt.Fprintln(os.Stderr, "symx:", err)
